@@ -301,6 +301,12 @@ def check_vectorize(ctx, chk, hv):
     for fam, (welem, wval) in want.items():
         g = got.get(fam, [])
         ok = len(g) == 1 and g[0][0] == welem and g[0][1] == wval
+        if not ok and len(g) == 1 and fam in ("os", "services", "processes"):
+            # the same positional pairing through a list built by one unconditional pass over the
+            # host's dict: entry i of [f(v) for v in host.<fam>.values()] is the i-th flag
+            M = f"{H}.{fam}"
+            V = f"{M}[each({M})]"
+            ok = g[0][0] == f"each(enumerate([{V} for each({M})]))[0]" and g[0][1] == V
         chk.ob("C09.vectorize", f"vectorize: family {fam}"
                f"{'[' + welem + ']' if welem else ''} := {wval}", ok,
                str([(a, b) for a, b, _ in g]), f"{hv.module.path}:{m.node.lineno}")
